@@ -9,11 +9,13 @@ def dispatch (s : DState) (line : String) : DState × String :=
     if e.startsWith "#" then (s, "skip")
     else if e == "ie" then (s, engIE args)
     else if e == "dec" then engDec s args
+    else if e == "reg" then (s, engReg args)
     else if e == "chk" then
       match args with
       | "ie" :: rest => (s, chkIE rest)
       | "dec" :: rest => chkDec true s rest
       | "decm" :: rest => chkDec false s rest
+      | "c17" :: rest => (s, chkC17 rest)
       | _ => (s, "na")
     else (s, "bad-op")
 
